@@ -5,7 +5,7 @@ from checks.outparse import parse_raws, NONE, txt
 
 ID = "C07"
 LEAN_MODULES = ["Econf.Props.C07"]
-THEOREMS = ["Econf.C07_roundtrip", "Econf.C07_object", "Econf.render_docOf", "Econf.docOf_wf", "Econf.doc_reread", "Econf.C02_parse_render"]
+THEOREMS = ["Econf.C07_roundtrip", "Econf.C07_object", "Econf.C07_setter_step", "Econf.C07_setters", "Econf.C07_built_roundtrip", "Econf.render_docOf", "Econf.docOf_wf", "Econf.doc_reread", "Econf.C02_parse_render"]
 SHRINK = False
 RULE = ("objects built by random setter histories with arguments of DESIGN.md 5.4 (interleaved group-less and sectioned keys, re-opened "
         "sections, overwritten keys, typed setters) and objects parsed from conventional documents, x delimiter char {=,:,space} x "
